@@ -127,10 +127,91 @@ var ctx = vxfw.DrawContext{Characters: vaxis.Characters}
 
 type plainKey struct{ idx, st int }
 
+func charsWidth(str string) int {
+	n := 0
+	for _, ch := range vaxis.Characters(str) {
+		n += ch.Width
+	}
+	return n
+}
+
+// atomize cuts s into the pieces the plain scanner can tell apart: the grapheme clusters of
+// the whole text, refined where a line segment of uniseg (or the trimmed word of one, or a
+// grapheme of ctx.Characters(word)) ends inside a cluster (uniseg documents that its line
+// breaking may break within grapheme clusters, e.g. between a space and a combining mark).
+// The width of an atom is what ctx.Characters measures for it on its own.
+func atomize(s string) (atoms []cluster, ok bool) {
+	cs, ok := segment(s)
+	if !ok {
+		return nil, false
+	}
+	bounds := map[int]bool{0: true}
+	o := 0
+	for _, c := range cs {
+		o += len(c.g)
+		bounds[o] = true
+	}
+	type q struct{ off, st int }
+	for iter := 0; iter < 20; iter++ {
+		changed := false
+		seen := map[q]bool{}
+		queue := []q{{0, -1}}
+		for len(queue) > 0 {
+			k := queue[0]
+			queue = queue[1:]
+			if seen[k] || k.off >= len(s) {
+				continue
+			}
+			seen[k] = true
+			seg, _, _, st := uniseg.FirstLineSegment([]byte(s[k.off:]), k.st)
+			word := bytes.TrimRightFunc(seg, unicode.IsSpace)
+			need := []int{k.off + len(seg), k.off + len(word)}
+			p := k.off
+			tiles := true
+			for _, ch := range vaxis.Characters(string(word)) {
+				if !strings.HasPrefix(s[p:], ch.Grapheme) || ch.Grapheme == "" {
+					tiles = false
+					break
+				}
+				p += len(ch.Grapheme)
+				need = append(need, p)
+			}
+			if !tiles {
+				need = need[:2]
+			}
+			for _, n := range need {
+				if !bounds[n] {
+					bounds[n] = true
+					changed = true
+				}
+			}
+			queue = append(queue, q{k.off + len(seg), st})
+			for b := k.off; b <= k.off+len(word); b++ {
+				if bounds[b] {
+					queue = append(queue, q{b, -1})
+				}
+			}
+		}
+		if !changed {
+			break
+		}
+	}
+	prev := 0
+	for b := 1; b <= len(s); b++ {
+		if bounds[b] {
+			piece := s[prev:b]
+			w := charsWidth(piece)
+			atoms = append(atoms, cluster{piece, w, 0})
+			prev = b
+		}
+	}
+	return atoms, true
+}
+
 // oracleTable computes the closure of FirstLineSegment queries reachable from (0,-1):
 // threading (idx+n, newState) and restarting inside a word (idx+k, -1).  An answer that
-// does not fall on cluster boundaries, or whose word / trailing space ctx.Characters
-// measures differently from the clusters of the whole text, is recorded with length -1.
+// does not fall on atom boundaries, or whose word / trailing space ctx.Characters
+// measures differently from the atoms, is recorded with length -1.
 func oracleTable(s string, cs []cluster) (string, int, []int) {
 	offs := make([]int, len(cs)+1)
 	at := map[int]int{}
@@ -158,7 +239,7 @@ func oracleTable(s string, cs []cluster) (string, int, []int) {
 		wend, ok2 := at[offs[k.idx]+len(word)]
 		if ok && ok2 && len(seg) > 0 {
 			aligned := true
-			// ctx.Characters(word) must be the clusters idx..wend
+			// ctx.Characters(word) must be the atoms idx..wend
 			wc := vaxis.Characters(string(word))
 			if len(wc) != wend-k.idx {
 				aligned = false
@@ -169,14 +250,10 @@ func oracleTable(s string, cs []cluster) (string, int, []int) {
 					}
 				}
 			}
-			sw := 0
-			for _, ch := range vaxis.Characters(string(seg[len(word):])) {
-				sw += ch.Width
-			}
-			if sw != sumWidth(cs[wend:end]) {
+			if charsWidth(string(seg[len(word):])) != sumWidth(cs[wend:end]) {
 				aligned = false
 			}
-			// trimming runes and trimming clusters must agree
+			// trimming runes and trimming atoms must agree
 			for i := wend; i < end; i++ {
 				if !lastRuneIsSpace(cs[i].g) {
 					aligned = false
@@ -201,8 +278,7 @@ func oracleTable(s string, cs []cluster) (string, int, []int) {
 			}
 		}
 	}
-	offsCopy := offs
-	return hx.List(entries), misses, offsCopy
+	return hx.List(entries), misses, offs
 }
 
 type obsLine struct {
@@ -254,12 +330,15 @@ type plainJSON struct {
 }
 
 func addPlain(st *hx.Stream, s string, widths []uint16, skipped *int, tags ...string) {
-	cs, ok := segment(s)
+	cs, ok := atomize(s)
 	if !ok {
 		*skipped++
 		return
 	}
 	tbl, misses, offs := oracleTable(s, cs)
+	if whole, _ := segment(s); len(whole) != len(cs) {
+		tags = append(tags, "segment-ends-inside-grapheme")
+	}
 	sp, bk := flags(cs)
 	var runs []string
 	js := plainJSON{Text: s}
